@@ -27,6 +27,7 @@ type G struct {
 	started  bool
 	ready    func() bool
 	note     string
+	vc       vclock
 }
 
 type killSentinel struct{}
@@ -70,6 +71,7 @@ func (e *Exec) spawn(d deferred) {
 	env := e.env
 	g := &G{id: len(env.gs), wake: make(chan struct{})}
 	env.gs = append(env.gs, g)
+	e.raceFork(g)
 	go func() {
 		<-g.wake
 		g.started = true
@@ -324,6 +326,7 @@ func (e *Exec) chanSend(ch *ChanV, v Value) {
 	if c.Closed {
 		panic(unsupported("send on closed channel"))
 	}
+	e.raceRelease(fmt.Sprintf("chan%d", c.ID))
 	c.Buf = append(c.Buf, copyVal(v))
 }
 
@@ -335,6 +338,7 @@ func (e *Exec) chanRecv(ch *ChanV, commaOk bool, t types.Type) (Value, *GoPanic)
 	c.recvWaiting++
 	e.waitUntil(c.recvReady, "chan receive")
 	c.recvWaiting--
+	e.raceAcquire(fmt.Sprintf("chan%d", c.ID))
 	var v Value
 	ok := true
 	if len(c.Buf) > 0 {
@@ -361,6 +365,7 @@ func (e *Exec) chanClose(ch *ChanV) *GoPanic {
 	if ch.C.Closed {
 		return &GoPanic{Msg: "close of closed channel"}
 	}
+	e.raceRelease(fmt.Sprintf("chan%d", ch.C.ID))
 	ch.C.Closed = true
 	return nil
 }
@@ -436,9 +441,11 @@ func (e *Exec) selectStmt(fr *Frame, x *ssa.Select) (Value, *GoPanic) {
 		if c.c.Closed {
 			return nil, e.goPanic(fr, x, "send on closed channel")
 		}
+		e.raceRelease(fmt.Sprintf("chan%d", c.c.ID))
 		c.c.Buf = append(c.c.Buf, copyVal(c.val))
 		return result(i, false, nil, -1), nil
 	}
+	e.raceAcquire(fmt.Sprintf("chan%d", c.c.ID))
 	if len(c.c.Buf) > 0 {
 		v := c.c.Buf[0]
 		c.c.Buf = c.c.Buf[1:]
@@ -456,6 +463,7 @@ func mutexLock(e *Exec, fn *ssa.Function, a []Value) (Value, *GoPanic) {
 	k := syncKey(a[0].(*Ptr))
 	e.waitUntil(func() bool { return !e.env.locks[k] }, "mutex lock")
 	e.env.locks[k] = true
+	e.raceAcquire("mu" + k)
 	return nil, nil
 }
 
@@ -465,6 +473,7 @@ func mutexUnlock(e *Exec, fn *ssa.Function, a []Value) (Value, *GoPanic) {
 	if !e.env.locks[k] {
 		return nil, &GoPanic{Msg: "sync: unlock of unlocked mutex"}
 	}
+	e.raceRelease("mu" + k)
 	e.env.locks[k] = false
 	if e.env.explore {
 		e.yield()
@@ -485,6 +494,7 @@ func wgAdd(e *Exec, fn *ssa.Function, a []Value) (Value, *GoPanic) {
 func wgDone(e *Exec, fn *ssa.Function, a []Value) (Value, *GoPanic) {
 	e.envInit()
 	k := syncKey(a[0].(*Ptr))
+	e.raceRelease("wg" + k)
 	e.env.wgs[k]--
 	if e.env.wgs[k] < 0 {
 		return nil, &GoPanic{Msg: "sync: negative WaitGroup counter"}
@@ -496,6 +506,7 @@ func wgWait(e *Exec, fn *ssa.Function, a []Value) (Value, *GoPanic) {
 	e.envInit()
 	k := syncKey(a[0].(*Ptr))
 	e.waitUntil(func() bool { return e.env.wgs[k] == 0 }, "WaitGroup.Wait")
+	e.raceAcquire("wg" + k)
 	return nil, nil
 }
 
